@@ -31,6 +31,38 @@ def make_dataset(fp, d, rowcounts, scheme):
     return path, df
 
 
+def make_foreign(d, rowcounts):
+    """the same table as a single file from 'another writer' (independent encoder; no pandas metadata, plain strings)"""
+    import pandas as pd
+    import numpy as np
+    from ..pqspec import writer as PW
+    n = sum(rowcounts)
+    xs = [i * 13 + 70001 for i in range(n)]
+    ss = ["v%04d" % (i * 7) for i in range(n)]
+    ks = [["ka", "kb", "kc"][i % 3] for i in range(n)]
+    fs = [None if i % 4 == 3 else i * 0.5 + 0.125 for i in range(n)]
+    schema = [{"name": "x", "type": "INT64", "repetition": "REQUIRED", "converted_type": None},
+              {"name": "s", "type": "BYTE_ARRAY", "repetition": "REQUIRED", "converted_type": "UTF8"},
+              {"name": "k", "type": "BYTE_ARRAY", "repetition": "REQUIRED", "converted_type": "UTF8"},
+              {"name": "f", "type": "DOUBLE", "repetition": "OPTIONAL", "converted_type": None}]
+    rgs, a = [], 0
+    for c in rowcounts:
+        b = a + c
+        def col(name, vals, levels=None):
+            return {"path": [name], "codec": "UNCOMPRESSED", "dictionary": None, "statistics": "auto",
+                    "pages": [{"version": 1, "encoding": "PLAIN", "values": vals, "def_levels": levels}]}
+        rgs.append({"num_rows": c, "columns": [
+            col("x", xs[a:b]), col("s", [v.encode() for v in ss[a:b]]), col("k", [v.encode() for v in ks[a:b]]),
+            col("f", [v for v in fs[a:b] if v is not None], [0 if v is None else 1 for v in fs[a:b]])]})
+        a = b
+    path = os.path.join(d, "ds-foreign.parquet")
+    with open(path, "wb") as f:
+        f.write(PW.build_file({"created_by": "parquet-mr version 1.12.0 (build abc)", "schema": schema, "row_groups": rgs}))
+    df = pd.DataFrame({"x": np.array(xs, dtype="int64"), "s": pd.Series(ss, dtype=object), "k": pd.Series(ks, dtype=object),
+                       "f": [np.nan if v is None else v for v in fs]})
+    return path, df
+
+
 def sl(v):
     return None if v == NONE else v
 
@@ -105,7 +137,8 @@ def run_program(fp, path, df, rowcounts, prog, outcome):
             probs.append("number of rows read differs from the rows of the view")
         else:
             for c in cols:
-                a = [None if (v is None or v != v) else (str(v) if c in ("s", "k") else float(v)) for v in got[c].astype(object)]
+                a = [None if (v is None or v != v) else ((v.decode() if isinstance(v, bytes) else str(v)) if c in ("s", "k") else float(v))
+                     for v in got[c].astype(object)]
                 b = [None if (v is None or v != v) else (str(v) if c in ("s", "k") else float(v)) for v in want[c].astype(object)]
                 if a != b:
                     probs.append("cells differ from the corresponding part of the full read")
@@ -123,6 +156,7 @@ def replay_chunk(args):
     os.makedirs(d)
     try:
         sets = {s: make_dataset(fp, d, rowcounts, s) for s in ("simple", "hive")}
+        sets["foreign"] = make_foreign(d, rowcounts)
         for ci, c in enumerate(cases):
             for scheme, (path, df) in sets.items():
                 out["evals"] += 1
@@ -193,7 +227,8 @@ def _run(ev, work, thorough):
     ev.rule = ("programs = every sequence TLC enumerates: derivations {slice [i:j:k] over the argument grid, pick, pickle, copy, "
                "deepcopy} (depth 1 with every read kind / depth 2-3 with to_pandas and count) ending in a read "
                "{to_pandas, iter_row_groups, head(n) for every n, count, file-like} with column selections; executed on a "
-               "single-file and a hive dataset; non-trivial = distinct programs with at least one derivation")
+               "single-file and a hive dataset written by the library and on a single file from an independent encoder "
+               "(no pandas metadata); non-trivial = distinct programs with at least one derivation")
     ev.exhaustive = True
     ev.sample(cases[len(cases) // 3])
     n = verd.report(ev)
